@@ -1430,22 +1430,22 @@ class UnitArray :
             self._value = np.array(v, dtype=float)
         else :
             if isarray(v) :
-                self._value = np.array(v, dtype=object) # keeps str / UnitValue items as they are (np.array(v) turns a list holding a str into np.str_ items)
-                for i in range(len(self._value)) :
-                    if isinstance(self._value[i], str) :
-                        self._value[i] = parse_unitvalue(self._value[i])
+                value = np.array(v, dtype=object) # keeps str / UnitValue items as they are (np.array(v) turns a list holding a str into np.str_ items)
+                for i in range(len(value)) :
+                    if isinstance(value[i], str) :
+                        value[i] = parse_unitvalue(value[i])
 
-                    if type(self._value[i]) == UnitValue :
-                        if self._value[i].units.dim != self.units.dim :
+                    if type(value[i]) == UnitValue :
+                        if value[i].units.dim != self.units.dim :
                             raise ValueError("units dimensions of item "+str(i)+" does not match the UnitArray units.")
 
-                        if self._value[i].units.sys != self.units.sys :
-                            self._value[i] = self._value[i].convert(self.units)
+                        if value[i].units.sys != self.units.sys :
+                            value[i] = value[i].convert(self.units)
 
-                        self._value[i] = self._value[i].value
-                    elif isnumber(self._value[i]) :
+                        value[i] = value[i].value
+                    elif isnumber(value[i]) :
                         pass
-                self._value = np.array(self._value, dtype=float)
+                self._value = np.array(value, dtype=float) # stored only once every item has been accepted
             else :
                 raise ValueError("UnitArray's value must be an array.")
 
